@@ -150,6 +150,18 @@ def run_case(case, ctx):
                     if got.shape != (nI, nX) or not np.array_equal(got.reshape(-1).astype(np.int64), GF[k]):
                         bad.append({'sig': 'irregular:get_tracefield_values-grid-differs', 'detail': 'field %d: shape %s' % (k, got.shape)})
                         break
+                if exact and not bad:
+                    # ... and on the same reader again after the grid reads: header i and trace i are still the i-th source header / trace
+                    for t in sorted({0, n - 1, n // 2, rng.randrange(n)}):
+                        h = {int(k): int(v) for k, v in r.gen_trace_header(t).items()}
+                        ncmp += 1
+                        if any(h.get(k) != int(src['headers'][k][t]) for k in KEYS):
+                            bad.append({'sig': 'irregular:gen_trace_header-after-grid-reads-is-not-ith-source-header', 'detail': 'trace %d' % t})
+                            break
+                        i_, x_ = pos[t]
+                        if reads.same(r.get_trace(t), img[i_, x_]):
+                            bad.append({'sig': 'irregular:get_trace-after-grid-reads-is-not-ith-source-trace', 'detail': 'trace %d' % t})
+                            break
                 ops = reads.ops_3d((nI, nX, nZ), r.blockshape, rng, 36, tracecount=n)
                 ops = [o for o in ops if o[0] != 'get_trace']
                 ops += [('read_inline', (i,)) for i in range(nI)] + [('read_crossline', (x,)) for x in range(nX)]
